@@ -8,7 +8,7 @@ def fresh : W := { ep := (make {} ⟨M, 999999, 0, 64, false⟩).1 }
 
 def phaseStr (c : Call) : String :=
   match c.phase with
-  | .finished (.reply k) => s!"reply {k}"
+  | .finished (.reply k) => s!"reply {(k - 3) / 2}"   -- the call's index: ids are 3, 5, 7, … in this world
   | .finished .failed => "failed"
   | .finished .closedErr => "error"
   | .finished .cancelled => "cancelled"
